@@ -5,7 +5,7 @@ package compiler
 
 // C13: getter / must-getter resolution, transcribed from the property statement.
 //@ func (StepCompileServices).getter
-//@   property C13
+//@   property C13 C02 C03 C04 C05 C06 C07 C11 C12 C14 C15 C16 C10
 //@   ensures [getter_is_configured_or_empty] getter == (svc.Getter == nil ? "" : *svc.Getter)
 //@   ensures [must_getter_iff] err == nil ==> (mustGetter <==> (getter != "" &&
 //@             ((svc.MustGetter != nil && *svc.MustGetter) ||
@@ -14,7 +14,7 @@ package compiler
 
 // C13: package, type and constructor names are the configured ones or the documented defaults.
 //@ func (*StepCompileMeta).Process
-//@   property C13 C14 C03 C15
+//@   property C13 C14 C03 C15 C02 C04 C05 C06 C07 C11 C12 C16 C10
 //@   requires d != nil
 //@   requires [wired] s.aliasRegisterer != nil && s.funcRegisterer != nil
 //@   modifies d.Meta
@@ -31,7 +31,7 @@ package compiler
 // the complete alias table.
 // Composition invariant (established by the DI root, evaluated not proved): injected collaborators are non-nil.
 //@ func (*StepCompileMeta).handleImports
-//@   property C14
+//@   property C14 C02 C03 C04 C05 C06 C07 C11 C12 C15 C16 C10
 //@   reports_all
 //@   requires [wired] s.aliasRegisterer != nil
 //@   ensures [registers_aliases_only] tlen() >= old(tlen()) && (forall k int :: old(tlen()) <= k && k < tlen() ==> evIs(k, "internal/pkg/compiler:aliasRegisterer.RegisterPrefixAlias"))
@@ -44,7 +44,7 @@ package compiler
 //@        && evIs(b, "internal/pkg/compiler:aliasRegisterer.RegisterPrefixAlias") && evS1(b) == n && evS2(b) == imports[n])
 
 //@ func (*StepCompileMeta).handleFunctions
-//@   property C14 C15 C03
+//@   property C14 C15 C03 C02 C04 C05 C06 C07 C11 C12 C16 C10
 //@   requires [wired] s.funcRegisterer != nil
 //@   ensures [registers_functions_only] tlen() >= old(tlen()) && (forall k int :: old(tlen()) <= k && k < tlen() ==> evIs(k, "internal/pkg/compiler:funcRegisterer.RegisterFunc"))
 // every declared function is registered under its own name, and the import it is registered with is a plain path: never
@@ -67,7 +67,7 @@ package compiler
 //@   (*p == input.ScopeNonShared ? output.ScopeNonShared : output.ScopeDefault)))
 
 //@ func (StepCompileServices).processScopes
-//@   property C05
+//@   property C05 C02 C03 C04 C06 C07 C11 C12 C14 C15 C16 C10
 //@   requires o != nil
 //@   requires [declared_scopes_are_keywords] forall n string :: n in i.Services && i.Services[n].Scope != nil ==>
 //@              (*i.Services[n].Scope == input.ScopeShared || *i.Services[n].Scope == input.ScopeContextual || *i.Services[n].Scope == input.ScopeNonShared)
@@ -113,7 +113,7 @@ package compiler
 // C13: the Go type of a service is "interface{}" when no type is configured. (The clause tying a configured type to
 // ptr + alias(import) + "." + type was dropped: word equations over regex captures time out in all three solvers.)
 //@ func (StepCompileServices).serviceType
-//@   property C13 C14
+//@   property C13 C14 C02 C03 C04 C05 C06 C07 C11 C12 C15 C16 C10
 //@   requires [wired] s.aliaser != nil
 //@   ensures [default_type] serviceType == nil ==> result == "interface{}"
 //@   ensures [local_type_as_written] serviceType != nil && inLang(*serviceType, reFull("\\*?[A-Za-z][A-Za-z0-9_]*")) ==> result == *serviceType
@@ -133,13 +133,13 @@ package compiler
 //@   modifies *o
 
 //@ func argExprToArg pure
-//@   property C02 C06 C07 C03 C04 C05
+//@   property C02 C06 C07 C03 C04 C05 C11 C12 C14 C15 C16 C10
 //@   ensures [fields] result.Code == e.Code && result.Raw == e.Raw && result.DependsOnParams == e.DependsOnParams
 //@        && result.DependsOnServices == e.DependsOnServices && result.DependsOnTags == e.DependsOnTags
 
 // every argument is resolved, in order; the whole list is accepted iff every argument is
 //@ func resolveArgs pure
-//@   property C02 C04 C12 C06 C07 C03 C05 C11
+//@   property C02 C04 C12 C06 C07 C03 C05 C11 C14 C15 C16 C10
 //@   reports_all
 //@   requires [wired] resolver != nil
 //@   ensures [same_length] len(r) == len(args)
@@ -156,7 +156,7 @@ package compiler
 
 // C04: tags keep their names, priorities and order
 //@ func (StepCompileServices).serviceTags pure
-//@   property C04 C02
+//@   property C04 C02 C03 C05 C06 C07 C11 C12 C14 C15 C16 C10
 //@   ensures [same_length] len(r) == len(tags)
 //@   ensures [in_order] forall k int :: 0 <= k && k < len(tags) ==> r[k].Name == tags[k].Name && r[k].Priority == tags[k].Priority
 //@   loop 1
@@ -165,7 +165,7 @@ package compiler
 
 // C02: calls keep their method, immutability flag and order; their arguments are resolved in order
 //@ func (StepCompileServices).serviceCalls pure
-//@   property C02 C12 C06 C07 C05 C11
+//@   property C02 C12 C06 C07 C05 C11 C03 C04 C14 C15 C16 C10
 //@   reports_all
 //@   requires [wired] s.argResolver != nil
 //@   ensures [same_length] len(r) == len(calls)
@@ -182,7 +182,7 @@ package compiler
 
 // C02 / C08: one field per declared key, in strictly increasing key order, each with the resolved value of that key
 //@ func (StepCompileServices).serviceFields pure
-//@   property C02 C08 C12 C06 C07 C05 C11
+//@   property C02 C08 C12 C06 C07 C05 C11 C03 C04 C14 C15 C16 C10
 //@   reports_all
 //@   requires [wired] s.argResolver != nil
 //@   ensures [names_are_keys] forall k int :: 0 <= k && k < len(r) ==> (r[k].Name in fields) && r[k].Value == argExprToArg(s.argResolver.ResolveArg(fields[r[k].Name]).0)
@@ -199,12 +199,12 @@ package compiler
 //@     invariant [b @b] (forall n string :: n in visited ==> s.argResolver.ResolveArg(fields[n]).1 == nil) ==> len(errs) == 0
 
 //@ func (StepCompileServices).serviceValue
-//@   property C02 C12 C14
+//@   property C02 C12 C14 C03 C04 C05 C06 C07 C11 C15 C16 C10
 //@   requires [wired] s.aliaser != nil
 //@   ensures [none] serviceValue == nil ==> result == ""
 //@   ensures [compiled_as_a_value_expression] serviceValue != nil ==> result == syntax.CompileServiceValue(s.aliaser, *serviceValue)
 //@ func (StepCompileServices).serviceConstructor
-//@   property C02 C12 C14
+//@   property C02 C12 C14 C03 C04 C05 C06 C07 C11 C15 C16 C10
 //@   requires [wired] s.aliaser != nil
 //@   ensures [none] c == nil ==> result == ""
 //@   ensures [local_function_as_written] c != nil && inLang(*c, reFull("[A-Za-z][A-Za-z0-9_]*")) ==> result == *c
@@ -213,7 +213,7 @@ package compiler
 // C15 / C02: a todo service compiles to a bare placeholder carrying only its name (nothing else is looked at, nothing is
 // resolved); any other service keeps its name and is built from its own declaration, attribute by attribute.
 //@ func (StepCompileServices).processService pure
-//@   property C02 C15 C04 C13 C12 C06 C07 C05 C11 C14
+//@   property C02 C15 C04 C13 C12 C06 C07 C05 C11 C14 C03 C16 C10
 //@   requires [wired] s.aliaser != nil && s.argResolver != nil
 //@   ensures [todo_placeholder] (i.Services[name].Todo != nil && *i.Services[name].Todo) ==>
 //@        result.1 == nil && o.Name == name && o.Todo && o.Getter == "" && !o.MustGetter && o.Type == "" && o.Value == "" && o.Constructor == ""
@@ -229,14 +229,14 @@ package compiler
 //@        && s.serviceFields(i.Services[name].Fields).1 == nil
 
 //@ func (StepValidateInput).Process
-//@   property C11 C12
+//@   property C11 C12 C02 C03 C04 C05 C06 C07 C14 C15 C16 C10
 //@   requires [wired] s.validator != nil
 //@   ensures [verdict_is_the_validators] (result == nil) <==> (s.validator.Validate(i) == nil)
 
 // C10 / C12: compile steps run in order and stop at the first failing one, so that later steps only ever see an input
 // that every earlier step (validation first) accepted.
 //@ func (Compiler).Compile
-//@   property C10 C12 C11 C02 C03 C04 C05 C13 C14 C15 C06 C07
+//@   property C10 C12 C11 C02 C03 C04 C05 C13 C14 C15 C06 C07 C16
 //@   requires [wired] forall j int :: 0 <= j && j < len(c.steps) ==> c.steps[j] != nil
 //@   ensures [runs_a_prefix_in_order] tlen() >= old(tlen()) && tlen() - old(tlen()) <= len(c.steps)
 //@        && (forall j int :: 0 <= j && j < tlen() - old(tlen()) ==> evIs(old(tlen()) + j, "internal/pkg/compiler:Step.Process") && evRecv(old(tlen()) + j) == c.steps[j])
@@ -250,7 +250,7 @@ package compiler
 // C02 / C08 / C05: one compiled service per declared service, in strictly increasing name order, each the image of
 // its own declaration, with the scope of its declaration.
 //@ func (StepCompileServices).Process
-//@   property C02 C08 C05 C15 C12 C06 C07 C11
+//@   property C02 C08 C05 C15 C12 C06 C07 C11 C03 C04 C14 C16 C10
 //@   reports_all
 //@   requires o != nil
 //@   requires [wired] s.aliaser != nil && s.argResolver != nil
@@ -271,7 +271,7 @@ package compiler
 
 // C04: a decorator keeps its tag and its arguments (resolved in order); its function is the alias-qualified declared one
 //@ func (StepCompileDecorators).processDecorator pure
-//@   property C04 C12 C06 C07 C05 C11 C14
+//@   property C04 C12 C06 C07 C05 C11 C14 C02 C03 C15 C16 C10
 //@   requires [wired] s.aliaser != nil && s.argResolver != nil
 //@   ensures [tag_and_raw] result.0.Tag == d.Tag && result.0.Raw == d.Decorator
 //@   ensures [args] result.0.Args == resolveArgs(s.argResolver, d.Args).0 && result.1 == resolveArgs(s.argResolver, d.Args).1
@@ -280,7 +280,7 @@ package compiler
 
 // C04: decorators keep their declaration order (file order after merging)
 //@ func (StepCompileDecorators).Process
-//@   property C04 C12 C06 C07 C05 C11 C14
+//@   property C04 C12 C06 C07 C05 C11 C14 C02 C03 C15 C16 C10
 //@   reports_all
 //@   requires d != nil
 //@   requires [wired] s.aliaser != nil && s.argResolver != nil
@@ -299,7 +299,7 @@ package compiler
 // C06 / C07 / C08: one compiled parameter per declared parameter, appended in strictly increasing name order; a parameter
 // keeps its name even when its value cannot be compiled; its dependency list is the resolver's.
 //@ func (StepCompileParams).Process
-//@   property C03 C06 C07 C08 C12 C11 C15
+//@   property C03 C06 C07 C08 C12 C11 C15 C02 C04 C05 C14 C16 C10
 //@   reports_all
 //@   requires d != nil
 //@   requires [wired] s.resolver != nil
@@ -323,20 +323,20 @@ package compiler
 
 // ---- constructors
 //@ func New
-//@   property C10 C12
+//@   property C10 C12 C02 C03 C04 C05 C06 C07 C11 C14 C15 C16
 //@   ensures [keeps_the_steps_in_order] result != nil && ((forall j int :: 0 <= j && j < len(steps) ==> steps[j] != nil) ==> len(result.steps) == len(steps) && (forall j int :: 0 <= j && j < len(steps) ==> result.steps[j] == steps[j]))
 //@ func NewStepCompileDecorators
-//@   property C04 C14
+//@   property C04 C14 C02 C03 C05 C06 C07 C11 C12 C15 C16 C10
 //@   ensures [fields_as_given] result != nil && result.aliaser == a && result.argResolver == ar
 //@ func NewStepCompileMeta
-//@   property C13 C14
+//@   property C13 C14 C02 C03 C04 C05 C06 C07 C11 C12 C15 C16 C10
 //@   ensures [fields_as_given] result != nil && result.aliasRegisterer == a && result.funcRegisterer == fn
 //@ func NewStepCompileParams
-//@   property C03 C06
+//@   property C03 C06 C02 C04 C05 C07 C11 C12 C14 C15 C16 C10
 //@   ensures [fields_as_given] result != nil && result.resolver == r
 //@ func NewStepCompileServices
-//@   property C02 C14
+//@   property C02 C14 C03 C04 C05 C06 C07 C11 C12 C15 C16 C10
 //@   ensures [fields_as_given] result != nil && result.aliaser == a && result.argResolver == ar
 //@ func NewStepValidateInput
-//@   property C11
+//@   property C11 C02 C03 C04 C05 C06 C07 C12 C14 C15 C16 C10
 //@   ensures [fields_as_given] result != nil && result.validator == v
